@@ -1,7 +1,6 @@
 package queues
 
 import (
-	"math"
 	"sync"
 	"sync/atomic"
 
@@ -19,8 +18,7 @@ var (
 type Queue[T any] struct {
 	readChunk   *linkedbuffer.Chunk[T] // Current chunk being read from
 	writeChunk  *linkedbuffer.Chunk[T] // Current chunk being written to
-	writeCount  atomic.Uint64          // Total items written
-	readCount   atomic.Uint64          // Total items read
+	size        atomic.Int64           // Number of items in the queue; written under mx, read lock-free
 	mx          sync.RWMutex           // Protects chunk pointers
 	maxCapacity int                    // Maximum capacity per chunk
 	closed      atomic.Bool
@@ -39,15 +37,9 @@ func NewQueue[T any]() *Queue[T] {
 
 // Len returns the total number of items in the queue
 func (q *Queue[T]) Len() int {
-	writeCount := q.writeCount.Load()
-	readCount := q.readCount.Load()
-
-	if writeCount < readCount {
-		// The writeCount counter wrapped around
-		return int(math.MaxUint64 - readCount + writeCount)
-	}
-
-	return int(writeCount - readCount)
+	// A single counter: two separately loaded counters let a reader combine an old write
+	// count with a newer read count and report a negative length.
+	return int(q.size.Load())
 }
 
 // Enqueue adds an item to the back of the queue
@@ -68,7 +60,7 @@ func (q *Queue[T]) Enqueue(item any) bool {
 
 	// Try to push to current write chunk
 	if q.writeChunk.Push(typedItem) {
-		q.writeCount.Add(1)
+		q.size.Add(1)
 		return true
 	}
 
@@ -81,7 +73,7 @@ func (q *Queue[T]) Enqueue(item any) bool {
 	q.writeChunk = newChunk
 
 	if q.writeChunk.Push(typedItem) {
-		q.writeCount.Add(1)
+		q.size.Add(1)
 		return true
 	}
 
@@ -96,7 +88,7 @@ func (q *Queue[T]) Dequeue() (any, bool) {
 
 	// Try to pop from current read chunk
 	if item, ok := q.readChunk.Pop(); ok {
-		q.readCount.Add(1)
+		q.size.Add(-1)
 		return item, true
 	}
 
@@ -106,7 +98,7 @@ func (q *Queue[T]) Dequeue() (any, bool) {
 
 		// Try again with new chunk
 		if item, ok := q.readChunk.Pop(); ok {
-			q.readCount.Add(1)
+			q.size.Add(-1)
 			return item, true
 		}
 	}
@@ -146,8 +138,7 @@ func (q *Queue[T]) Purge() {
 	chunk := linkedbuffer.NewChunk[T](initialBufferCapacity)
 	q.readChunk = chunk
 	q.writeChunk = chunk
-	q.readCount.Store(0)
-	q.writeCount.Store(0)
+	q.size.Store(0)
 }
 
 // Close releases resources and clears the queue
